@@ -271,3 +271,144 @@ def r_loudcap(idx, rep, rule="R-LOUDCAP"):
                           "the polytope keeps a hole and EPA converges on a farther face while still returning success" % (u(st.test), cnt, cap), "asserted")
     if n_inst == 0:
         rep.error("R-LOUDCAP: no capacity exit found in distance3d.epa")
+
+
+# ---------------------------------------------------------------------------------------------------------------------------------
+# R-SWAPREMOVE: index discipline around swap-remove containers (Polytope.faces / LooseEdges.loose_edges)
+
+def _swap_remove_methods(idx, modname):
+    """{(class name, method name): (array attr, count attr, index parameter position)} for methods of the form
+    self.A[p] = self.A[self.N - 1]; self.N -= 1"""
+    out = {}
+    for ci in idx.module(modname).classes.values():
+        for mname, mi in ci.methods.items():
+            params = mi.params()
+            arr = cnt = pos = None
+            for st in iter_stmts(mi.node.body):
+                if isinstance(st, ast.Assign) and isinstance(st.targets[0], ast.Subscript) and isinstance(st.value, ast.Subscript) \
+                        and u(st.targets[0].value) == u(st.value.value) and u(st.targets[0].value).startswith("self.") \
+                        and isinstance(st.targets[0].slice, ast.Name) and st.targets[0].slice.id in params:
+                    sl = st.value.slice
+                    if isinstance(sl, ast.BinOp) and isinstance(sl.op, ast.Sub) and const(sl.right) == 1 and u(sl.left).startswith("self."):
+                        arr, pos, last = u(st.targets[0].value), params.index(st.targets[0].slice.id), u(sl.left)
+                        for st2 in iter_stmts(mi.node.body):
+                            if isinstance(st2, ast.AugAssign) and isinstance(st2.op, ast.Sub) and u(st2.target) == last and const(st2.value) == 1:
+                                cnt = last
+            if arr and cnt:
+                out[(ci.name, mname)] = (arr[5:], cnt[5:], pos - 1)      # position among call arguments (self excluded)
+    return out
+
+
+def r_swapremove(idx, rep, rule="R-SWAPREMOVE", modname=EPA, floor=2):
+    rep.rule(rule, "a swap-remove (A[i] = A[n-1]; n -= 1) moves the last element to position i: (a) an index handed to it inside a loop that mutates "
+                   "the container is computed in that iteration (not looked up before the loop — an earlier removal has moved the elements), and "
+                   "(b) a scan that removes at its own position re-examines that position (i -= 1 before the increment) or stops", floor=floor)
+    sr = _swap_remove_methods(idx, modname)
+    if not sr:
+        raise AnalysisError("%s: no swap-remove method (A[i] = A[n-1]; n -= 1) found" % modname)
+    names = {m for (_, m) in sr}
+    # methods that (transitively) change the container: swap-removes, appends (self.A[self.N] = ..; self.N += 1), and their callers
+    mutating = set(names)
+    mod = idx.module(modname)
+    allf = [f for f in mod.functions.values()]
+    for f in allf:
+        for st in ast.walk(f.node):
+            if isinstance(st, ast.AugAssign) and u(st.target).startswith("self.") and u(st.target)[5:] in {c for (_, c, _) in sr.values()}:
+                mutating.add(f.name.split(".")[-1])
+    changed = True
+    while changed:
+        changed = False
+        for f in allf:
+            short = f.name.split(".")[-1]
+            if short not in mutating and any(isinstance(c, ast.Call) and isinstance(c.func, ast.Attribute) and c.func.attr in mutating for c in ast.walk(f.node)):
+                mutating.add(short)
+                changed = True
+    n = 0
+    for f in allf:
+        pm = None
+        for c in ast.walk(f.node):
+            if not (isinstance(c, ast.Call) and isinstance(c.func, ast.Attribute) and c.func.attr in names):
+                continue
+            spec = [v for (cl, m), v in sr.items() if m == c.func.attr][0]
+            if spec[2] >= len(c.args):
+                continue
+            n += 1
+            pm = pm or parent_map(f.node)
+            arg = c.args[spec[2]]
+            key = "%s|%s(%s)" % (f.key, c.func.attr, u(arg))
+            where = "%s:%d" % (mod.relpath, c.lineno)
+            if not isinstance(arg, ast.Name):
+                rep.unknown(rule, key, where, "index expression `%s` not tracked" % u(arg))
+                continue
+            k = arg.id
+            # enclosing loops, innermost first, and the statement that contains the call
+            stmt = c
+            while not isinstance(stmt, ast.stmt):
+                stmt = pm[stmt]
+            loops = []
+            cur = stmt
+            while cur in pm:
+                cur = pm[cur]
+                if isinstance(cur, (ast.For, ast.While)):
+                    loops.append(cur)
+            verdict = None
+            for L in loops:
+                mutates = any(isinstance(x, ast.Call) and isinstance(x.func, ast.Attribute) and x.func.attr in mutating for b in L.body for x in ast.walk(b))
+                if not mutates:
+                    continue
+                assigned = any((isinstance(x, ast.Assign) and any(isinstance(t, ast.Name) and t.id == k for t in x.targets)) or
+                               (isinstance(x, ast.AugAssign) and isinstance(x.target, ast.Name) and x.target.id == k) or
+                               (isinstance(x, ast.For) and k in {t.id for t in ast.walk(x.target) if isinstance(t, ast.Name)} and isinstance(x.iter, ast.Call) and call_name(x.iter) == "range")
+                               for b in L.body for x in ast.walk(b))
+                own_counter = isinstance(L, ast.For) and k in {t.id for t in ast.walk(L.target) if isinstance(t, ast.Name)} and isinstance(L.iter, ast.Call) and call_name(L.iter) == "range"
+                if not assigned and not own_counter:
+                    src = "the loop target of `for ... in %s`" % u(L.iter)[:50] if isinstance(L, ast.For) and k in {t.id for t in ast.walk(L.target) if isinstance(t, ast.Name)} else "a value computed before the loop"
+                    verdict = ("the index `%s` handed to %s is %s, but the loop body changes the container (%s): after the first removal the last element "
+                               "has been moved into the freed slot and the element count has dropped, so an index looked up earlier names a different element "
+                               "(or one past the end); look it up in the iteration that uses it" % (k, c.func.attr, src, ", ".join(sorted(mutating & {x.func.attr for b in L.body for x in ast.walk(b) if isinstance(x, ast.Call) and isinstance(x.func, ast.Attribute)}))))
+                    break
+            if verdict:
+                rep.bad(rule, key, where, verdict)
+                continue
+            # (b) a scan that removes at its own position: net change of the scan variable from the removal to the end of the iteration is 0, or exit
+            scan = None
+            for L in loops:
+                if isinstance(L, ast.While) and k in {x.id for x in ast.walk(L.test) if isinstance(x, ast.Name)}:
+                    scan = L
+                    break
+                if isinstance(L, ast.For) and k in {t.id for t in ast.walk(L.target) if isinstance(t, ast.Name)}:
+                    scan = L
+                    break
+            if scan is None:
+                rep.ok(rule, key, where, "index computed in the iteration that uses it")
+                continue
+            net, exits, unknown = 0, False, False
+            cur = stmt
+            while cur is not scan:
+                par = pm[cur]
+                for fld in ("body", "orelse"):
+                    blk = getattr(par, fld, None)
+                    if isinstance(blk, list) and cur in blk:
+                        for later in blk[blk.index(cur) + 1:]:
+                            if exits:
+                                break
+                            if isinstance(later, (ast.Break, ast.Return, ast.Raise)):
+                                exits = True
+                            elif isinstance(later, ast.AugAssign) and isinstance(later.target, ast.Name) and later.target.id == k and isinstance(const(later.value), int):
+                                net += const(later.value) * (1 if isinstance(later.op, ast.Add) else -1 if isinstance(later.op, ast.Sub) else 0)
+                            elif any(isinstance(x, ast.Name) and x.id == k and isinstance(x.ctx, ast.Store) for x in ast.walk(later)):
+                                unknown = True
+                cur = par
+            if exits:
+                rep.ok(rule, key, where, "the scan stops after the removal")
+            elif unknown:
+                rep.unknown(rule, key, where, "scan variable `%s` is reassigned conditionally after the removal" % k)
+            elif isinstance(scan, ast.For):
+                rep.bad(rule, key, where, "`for %s in %s` removes at its own position and moves on: the element swapped into slot %s is never examined (and the range bound is stale)" % (k, u(scan.iter)[:40], k))
+            else:
+                rep.check(net == 0, rule, key, where,
+                          "after %s(%s) the scan variable advances by %+d before the next test: the element that the swap-remove moved into slot %s is skipped "
+                          "(a face that faces the new point stays in the polytope / a shared edge stays loose)" % (c.func.attr, k, net, k),
+                          "position re-examined (net advance 0)")
+    if n == 0:
+        raise AnalysisError("%s: swap-remove methods are never called" % modname)
